@@ -130,6 +130,18 @@ def check(case):
             return violation("at threshold %d %s: %s\n%s" % (t, what, "; ".join(map(repr, bad[:3])), texts[t]), labels, True)
         if finds:
             kf = finds[0].sig
+    # "at threshold 1 only features of all instances remain": every alternative still printed (on a constraint line or in a
+    # comment) is one that all instances of the shape have; the merged NONLITERAL line carries a sum (C01-NONLIT) and is left out
+    if 1 in docs:
+        for lab, cs in docs[1].items():
+            if lab == "__dup_labels__" or cs.n is None:
+                continue
+            for (dp, kind, card, n, ratio) in cs.facts:
+                if kind == ("kind", "NONLITERAL"):
+                    continue
+                if (n is not None and n != cs.n) or (n is None and ratio is not None and abs(float(ratio) - 100) > 1e-6):
+                    return violation("at threshold 1 the alternative %s %s %s of %s is still reported although only %s of %s instances have it (%s %%)\n%s" % (
+                        dp, kind, card, lab, n, cs.n, ratio, texts[1]), labels, True)
     if nt:
         labels.add("nontrivial")
     labels.add("grid-%d" % min(len(case["grid"]), 9))
